@@ -28,6 +28,7 @@ type mPlan struct {
 	stored     []*mocrelay.Event
 	live       []*mocrelay.Event
 	ignoreClos bool // keeps emitting after it received CLOSE
+	refuse     bool // answers the REQ with CLOSED and nothing else (it never sends an EOSE)
 	delaySeed  uint64
 }
 
@@ -37,6 +38,7 @@ type mGen struct {
 	reqCall   int64
 	closeCall int64
 	plans     []mPlan
+	refused   bool // some child refuses this REQ
 
 	mu        sync.Mutex
 	emits     []mEmit
@@ -133,6 +135,13 @@ func (c *mChild) ServeNostr(ctx context.Context, send chan<- mocrelay.ServerMsg,
 					seed := p.delaySeed
 					stop := func() bool { return g.closed[c.idx].Load() && !p.ignoreClos }
 					rec := func(e mEmit) { g.mu.Lock(); g.emits = append(g.emits, e); g.mu.Unlock() }
+					if p.refuse {
+						jitter(&seed)
+						if e, ok := c.emit(ctx, send, mocrelay.NewServerClosedMsg(g.sub, "error: ", fmt.Sprintf("child %d does not serve this", c.idx))); ok {
+							rec(e)
+						}
+						return
+					}
 					for _, ev := range p.stored {
 						jitter(&seed)
 						if stop() {
@@ -361,4 +370,16 @@ func mkChildren(w *mWorld, n int) []mocrelay.Handler {
 	return hs
 }
 
-var _ = rand.IntN
+// mMerge builds the merged handler over the scripted children; one time in eight two neighbours
+// are merged first and that merge handler takes their place (a merge handler is a handler: the
+// children keep their order, nothing any statement says depends on the nesting).
+func mMerge(r *rand.Rand, hs []mocrelay.Handler) (mocrelay.Handler, bool) {
+	if len(hs) >= 3 && r.IntN(8) == 0 {
+		i := r.IntN(len(hs) - 1)
+		nested := append([]mocrelay.Handler{}, hs[:i]...)
+		nested = append(nested, mocrelay.NewMergeHandler(hs[i], hs[i+1]))
+		nested = append(nested, hs[i+2:]...)
+		return mocrelay.NewMergeHandler(nested...), true
+	}
+	return mocrelay.NewMergeHandler(hs...), false
+}
